@@ -426,7 +426,7 @@ def check_C12(F, tier, t0):
                 if not x3_bad: reason = 'R5: index-domain typing X3 proves every index into the truth-table sequences below their length'
             if reason is None and s.what == 'expect' and owners and all(o.endswith('GraphWalk>::edges') and 'SymbolicParseTree' in o for o in owners):
                 if not x6_bad: reason = 'R12: position(..) finds every child because nodes_recursive visits exactly the fields edges() asks for (X6)'
-            if reason is None: reason = engine_p.site_table_reason(s)
+            if reason is None: reason = engine_p.site_table_reason(s, F)
             R.obligation(reason is not None, s.key)
             if reason:
                 R.count('P:discharged-by-' + reason.split(':')[0].split(' ')[0])
@@ -444,6 +444,8 @@ def check_C12(F, tier, t0):
     guarded(scratch6, 'X6', engine_x.rule_X6, F, scratch6, ('coverage',))
     x6_bad = [v for v in scratch6.violations]
     guarded(R, 'P', p)
+    # the `is not a free variable` panic of to_free_index is unreachable only if the free-variable analysis is right
+    guarded(R, 'S var_is_free', run_S, R, E, [FRF], spec_bdd.B, False)
     R.samples = R.samples[:12]
     R.floor('P:sites', 25); R.floor('P:reachable-functions', 50); R.floor('G:guards', 5)
     return finish(R, 'other', tier, t0,
@@ -467,6 +469,8 @@ def check_C13(F, tier, t0):
     guarded(R, 'E3 flow', engine_e.rule_E3_field_flow, F, R)
     guarded(R, 'E4', engine_e.rule_E4, F, R)
     guarded(R, 'E6', engine_e.rule_E6, F, R)
+    guarded(R, 'E8', engine_e.rule_E8, F, R)
+    guarded(R, 'H', engine_e.rule_H, F, R)      # the table is keyed by the diagram: Eq / Ord / Hash of the symbol must read the same key
     def g():
         for (key, rule, msg, loc, cell) in engine_g.guard_regions(F, R):
             if cell[0] == 'rsbdd::bdd::BDDEnv': R.violation(key, rule, msg, loc)
@@ -502,6 +506,7 @@ def check_C14(F, tier, t0):
     guarded(R, 'S helper predicates', run_S, R, make_engine(F), spec_bdd.HELPER_FNS, spec_bdd.B, False)
     guarded(R, 'X6', engine_x.rule_X6, F, R)
     guarded(R, 'X4 dot filter', engine_x.rule_X4, F, R, ('dotfilter',))
+    guarded(R, 'X7', engine_x.rule_X7, F, R)
     R.floor('X1:edge-tuples', 2); R.floor('X2:dot-leaf-cases', 6); R.floor('X2:dot-edge-cases', 18); R.floor('X6:variants', 12); R.floor('X6:recursive-fields', 11)
     return finish(R, 'other', tier, t0,
         'Sibling-agreement clauses: T/F edge flags and labels follow the true/false branch; leaf ids and labels sit on the matching variants; for every filter x child kind an '
